@@ -8,7 +8,8 @@ def nl(layout): return "\r\n" if layout.get("crlf") else "\n"
 def lay(rng, **force):
     L = {"indent": rng.choice(["  ", "    ", "\t"]), "crlf": rng.chance(1, 6), "sp_colon": rng.choice(["", " ", "  "]),
          "trail_nl": rng.chance(4, 5), "blank": rng.chance(1, 3), "comment": rng.chance(1, 3),
-         "nonascii": rng.chance(1, 8), "compact": rng.chance(1, 8), "quote": rng.choice(['"', "'", ""])}
+         "nonascii": rng.chance(1, 8), "compact": rng.chance(1, 8), "quote": rng.choice(['"', "'", ""]),
+         "escape": rng.chance(1, 10), "trail_ws": rng.chance(1, 8), "flow": rng.chance(1, 10), "tabsep": rng.chance(1, 6)}
     L.update(force)
     return L
 
@@ -28,12 +29,12 @@ def package_json(deps, L, extras=()):
     names = list(secs)
     for si, sec in enumerate(names):
         if L["compact"]:
-            body = ", ".join(f'{json.dumps(k)}:{L["sp_colon"]}{json.dumps(v)}' for k, v, _ in secs[sec])
+            body = ", ".join(f'{json.dumps(k, ensure_ascii=L["escape"])}:{L["sp_colon"]}{json.dumps(v, ensure_ascii=L["escape"])}' for k, v, _ in secs[sec])
             lines.append(f'{ind}"{sec}":{L["sp_colon"]}{{ {body} }}' + ("," if si < len(names) - 1 or extras else ""))
         else:
             lines.append(f'{ind}"{sec}":{L["sp_colon"]}{{')
             for i, (k, v, _) in enumerate(secs[sec]):
-                lines.append(f'{ind}{ind}{json.dumps(k, ensure_ascii=False)}:{L["sp_colon"]}{json.dumps(v, ensure_ascii=False)}' + ("," if i < len(secs[sec]) - 1 else ""))
+                lines.append(f'{ind}{ind}{json.dumps(k, ensure_ascii=L["escape"])}:{L["sp_colon"]}{json.dumps(v, ensure_ascii=L["escape"])}' + ("," if i < len(secs[sec]) - 1 else ""))
                 if L["blank"] and i == 0:
                     lines.append("")
             lines.append(f'{ind}}}' + ("," if si < len(names) - 1 or extras else ""))
@@ -58,13 +59,17 @@ def cargo_toml(deps, L):
         if L["comment"]:
             out.append(f"# {t} of the crate" + (" é" if L["nonascii"] else ""))
         out.append(f"[{t}]")
+        q = "'" if L["quote"] == "'" else '"'
         for name, form, spec, decl in items:
             eq = f"{L['sp_colon']}={L['sp_colon']}" if L["sp_colon"] else " = "
             tc = "  # pinned" if L["comment"] else ""
-            if form == "simple": out.append(f'{name}{eq}"{spec}"{tc}')
-            elif form == "inline": out.append(f'{name}{eq}{{ version = "{spec}", features = ["derive"] }}{tc}')
-            elif form == "inline2": out.append(f'{name}{eq}{{ features = ["x"], version = "{spec}", default-features = false }}')
-            elif form == "dotted": out.append(f'{name}.version{eq}"{spec}"')
+            if form == "simple": out.append(f'{name}{eq}{q}{spec}{q}{tc}')
+            elif form == "inline": out.append(f'{name}{eq}{{ version = {q}{spec}{q}, features = ["derive"] }}{tc}')
+            elif form == "inline2": out.append(f'{name}{eq}{{ features = ["x"], version = {q}{spec}{q}, default-features = false }}')
+            elif form == "dotted": out.append(f'{name}.version{eq}{q}{spec}{q}')
+            elif form == "renamed": out.append(f'{name}_alias{eq}{{ package = "{name}", version = "{spec}" }}')
+            elif form == "subtable":
+                out += [f"[{t}.{name}]", f'version{eq}"{spec}"', f"[{t}]"]
             elif form == "path": out.append(f'{name}{eq}{{ path = "../{name}", version = "{spec}" }}')
             elif form == "workspace": out.append(f'{name}{eq}{{ workspace = true }}')
             elif form == "dotted_ws": out.append(f'{name}.workspace{eq}true')
@@ -85,12 +90,13 @@ def go_mod(deps, L):
     blocks = [d for d in deps if d[0] in ("block", "indirect")]
     others = [d for d in deps if d[0] in ("replace", "exclude", "retract")]
     for _, p, v, decl in singles:
-        out.append(f"require {p} {v}" + (" // pinned" if L["comment"] else ""))
+        sep = "\t" if L["tabsep"] else " "
+        out.append(f"require{sep}{p}{sep}{v}" + (" // pinned" if L["comment"] else "") + ("  " if L["trail_ws"] else ""))
         if decl: declared.append(decl)
     if blocks:
         out.append("require (")
         for form, p, v, decl in blocks:
-            out.append(f"{L['indent']}{p} {v}" + (" // indirect" if form == "indirect" else ""))
+            out.append(f"{L['indent']}{p}{' ' if not L['tabsep'] else chr(9)}{v}" + (" // indirect" if form == "indirect" else "") + (" \t" if L["trail_ws"] else ""))
             if L["blank"]: out.append("")
             if decl: declared.append(decl)
         out.append(")")
@@ -112,7 +118,7 @@ def workflow(steps, L):
             out.append("      - run: echo hi")
             continue
         val = f"{q}{ref}{q}"
-        line = f"      - uses:{' ' if True else ''}{val}"
+        line = f"      - {{ uses: {val} }}" if (L["flow"] and comment is None) else f"      - uses: {val}"
         if comment is not None:
             line += f" # {comment}"
         out.append(line)
@@ -161,17 +167,18 @@ def pnpm_workspace(deps, L):
     for d in deps:
         if d[0] is not None: named.setdefault(d[0], []).append(d)
     def key(k): return f'"{k}"' if k.startswith("@") else k
+    def qq(s): return q if q or s[0] not in ">|*&!%@`#~" else "'"
     if default:
         out.append("catalog:")
         for _, p, s, decl in default:
-            out.append(f"  {key(p)}:{' '}{q}{s}{q}" + ("  # pinned" if L["comment"] else ""))
+            out.append(f"  {key(p)}:{' '}{qq(s)}{s}{qq(s)}" + ("  # pinned" if L["comment"] else ""))
             if decl: declared.append(decl)
     if named:
         out.append("catalogs:")
         for cname, ds in named.items():
             out.append(f"  {cname}:")
             for _, p, s, decl in ds:
-                out.append(f"    {key(p)}: {q}{s}{q}")
+                out.append(f"    {key(p)}: {qq(s)}{s}{qq(s)}")
                 if decl: declared.append(decl)
     return n.join(out) + (n if L["trail_nl"] else ""), declared
 
